@@ -377,11 +377,6 @@ class Engine:
             if res.get("skipped"):
                 self.nskipped += 1
                 continue
-            if res.get("inconclusive"):
-                # machinery problem of this run only; decided at the end (a
-                # violation established on another run stands)
-                self.inconcl.append("%s %s: %s" % (kind, res.get("name"), res["inconclusive"]))
-                continue
             if res.get("saw_get"):
                 self.saw_get = True
             rep = {"kind": kind, "name": res.get("name"),
@@ -405,6 +400,11 @@ class Engine:
             if v:
                 self.flagged.append(res)
                 self.report(v[0], kind, "%s [%s %s]" % (v[1], kind, res.get("name")), rep)
+                continue
+            if res.get("inconclusive"):
+                # machinery problem of this run only; decided at the end (a
+                # violation established on another run stands)
+                self.inconcl.append("%s %s: %s" % (kind, res.get("name"), res["inconclusive"]))
                 continue
             ok.append(i)
             if prog is not None:
@@ -511,7 +511,7 @@ class Engine:
         """TLC must flag (invariant on a recorded state) what the Python predicate flagged."""
         ctx = self.ctx
         for i, res in enumerate(self.flagged[:2]):
-            r, marks, n, conf, ended, vl = self.tlc_trace([res], "flagged-%d" % i, timeout=120)
+            r, marks, n, conf, ended, vl = self.tlc_trace([res], "flagged-%d" % i, timeout=400)
             ctx.add("tlc_runs")
             if not r.invariant_violated:
                 raise vlib.Inconclusive(
@@ -530,7 +530,7 @@ class Engine:
             return {"skipped": "base trace too short"}
 
         def run(evs, tag):
-            r, marks, n, conf, ended, vl = self.tlc_trace([{"events": evs, "name": tag}], "self-" + tag, timeout=120)
+            r, marks, n, conf, ended, vl = self.tlc_trace([{"events": evs, "name": tag}], "self-" + tag, timeout=400)
             if r.invariant_violated:
                 return "rejected:" + r.invariant_violated
             if r.ok and conf is not None and marks[0] not in conf:
@@ -573,6 +573,19 @@ def mk_prog(pid, name, stride, steps, model=None, drain=True):
 
 
 def run(ctx):
+    """A violation established on the real code stands: machinery problems
+    that show up afterwards are recorded, they do not turn exit 1 into exit 2
+    (and exit 2 is never accompanied by a VIOLATION line)."""
+    try:
+        _run(ctx)
+    except vlib.Inconclusive as ex:
+        if not (ctx.violations or ctx.known_hits):
+            raise
+        ctx.note("machinery problem after a violation was established: %s" % str(ex)[:600])
+        ctx.log("machinery problem after a violation was established (recorded in the evidence): %s" % str(ex)[:200])
+
+
+def _run(ctx):
     eng = Engine(ctx)
     eng.flagged = []
     eng.nviol = {}
@@ -608,7 +621,7 @@ def run(ctx):
     def bg_small():
         try:
             tlc_res["small"] = ctx.tlc("GetMessages", cfg="GetMessages_small.cfg" if quick else "GetMessages_thorough.cfg",
-                                       workers=6, timeout=240 if quick else 1200, deadlock=False,
+                                       workers=6, timeout=600 if quick else 2400, deadlock=False,
                                        coverage=not quick, name="tlc-small", heap="8g")
         except Exception as ex:  # noqa
             tlc_res["small_err"] = ex
@@ -760,15 +773,24 @@ def run(ctx):
             raise vlib.Inconclusive("%d run(s) without outcome, e.g. %s" % (len(eng.inconcl), eng.inconcl[0]))
 
     # ------------------------------------------------------------- design-level result
+    # (a violation established on the real code stands whatever TLC says about the design)
+    decided = bool(ctx.violations or ctx.known_hits)
+    r = tlc_res.get("small")
+    problem = None
     if "small_err" in tlc_res:
-        raise vlib.Inconclusive("TLC (design spec) failed: %s" % tlc_res["small_err"])
-    r = tlc_res["small"]
-    if r.invariant_violated:
-        raise vlib.Inconclusive("design spec GetMessages (Fixed=TRUE) violates %s -- modelling error, "
-                                "no verdict\n%s" % (r.invariant_violated, "\n".join(r.out.splitlines()[-40:])))
-    if not r.ok:
-        raise vlib.Inconclusive("TLC on the design spec did not finish: rc=%s timed_out=%s\n%s" % (
-            r.rc, r.timed_out, "\n".join(r.out.splitlines()[-20:])))
+        problem = "TLC (design spec) failed: %s" % tlc_res["small_err"]
+    elif r.invariant_violated:
+        problem = ("design spec GetMessages (Fixed=TRUE) violates %s -- modelling error, no verdict\n%s" % (
+            r.invariant_violated, "\n".join(r.out.splitlines()[-40:])))
+    elif not r.ok:
+        problem = "TLC on the design spec did not finish: rc=%s timed_out=%s\n%s" % (
+            r.rc, r.timed_out, "\n".join(x for x in r.out.splitlines()[-12:] if "processing of module" not in x))
+    if problem:
+        if not decided:
+            raise vlib.Inconclusive(problem)
+        ctx.note(problem[:400])
+        ctx.cov["conformance_drifts"] = eng.ndrift
+        return
     ctx.cov["states"] = ctx.cov.get("states", 0) + r.distinct
     ctx.cov["transitions"] = ctx.cov.get("transitions", 0) + r.generated
     ctx.add("tlc_runs")
